@@ -4,11 +4,13 @@ import multiprocessing
 import os
 
 from vlib import core
-from harness import c18_crash, c18_options, c18_resume
+from harness import c18_crash, c18_ext, c18_options, c18_resume
 
 PROP = 'C18'
-MODEL_MODULES = ['TenpyModel.Util.J', 'TenpyModel.C18.FS', 'TenpyModel.C18.Loop']
-PROPS_MODULES = ['TenpyModel.C18.PropsCrash', 'TenpyModel.C18.PropsResume', 'TenpyModel.C18.Props2']
+MODEL_MODULES = ['TenpyModel.Util.J', 'TenpyModel.C18.FS', 'TenpyModel.C18.Loop', 'TenpyModel.C18.ExtMeas',
+                 'TenpyModel.C18.ExtNames', 'TenpyModel.C18.ExtCkpt']
+PROPS_MODULES = ['TenpyModel.C18.PropsCrash', 'TenpyModel.C18.PropsResume', 'TenpyModel.C18.Props2',
+                 'TenpyModel.C18.PropsExtMeas', 'TenpyModel.C18.PropsExtNames', 'TenpyModel.C18.PropsExtCkpt']
 LEAN_MODULES = PROPS_MODULES
 LEVEL = 'proof'
 BUDGET = {'quick': 240, 'thorough': 1800}
@@ -39,7 +41,22 @@ RULE = ('crash: real Simulation.save_results (pickle and HDF5, safe_write on) of
         'save_resume_data on, post-processing. options: 18 contract scenarios (file naming and existing files, skip/overwrite, '
         'endings, directory, save_every_x_seconds, entry points and their argument errors, abort signals, RAM estimate, '
         'listener priorities, failing measurements / post-processing, sequential simulations incl. resume of the '
-        'sequence) and overwrite_output over a prefilled directory under the fault injector. Non-trivial: a truncation '
+        'sequence) and overwrite_output over a prefilled directory under the fault injector. ext: '
+        'Simulation._merge_measurement_results on random sequences of measurement dictionaries (1-8 measurements over '
+        '1-5 keys; stable / late / dropping / random key sets; malformed: empty first or middle dictionaries) called on '
+        'a bare Simulation object, store after every merge diffed with the Lean model and with the direct oracle '
+        '"series[k][j] == row_j.get(k)", plus the real prepare_results_for_save -> from_saved_checkpoint round trip at a '
+        'random split point; Simulation.fix_output_filenames on prefilled temporary directories (candidates '
+        'root, root_1.. taken / with gaps / all 100 / 99 of 100, stale backups, log and backup log, endings '
+        '.pkl/.h5/none/.out.pkl, all combinations of skip_if_output_exists, overwrite_output, loaded_from_checkpoint, '
+        'safe_write; malformed: no output name, skip+overwrite, resumed without output file), outcome + whole '
+        'directory diffed with the Lean model and checked by a model-free oracle; three end-to-end runs resumed from '
+        'their own output file; Simulation.save_at_checkpoint / handle_abort_signal on a bare Simulation object with '
+        'the real save_results under a scripted clock (3-8 checkpoints, save_every_x_seconds None / 0 / 1-80 units, '
+        'gaps around the interval, save durations around a tenth of it, SIGINT before a random checkpoint; malformed: '
+        'clock not advancing or going backwards, second SIGINT, another signal), state after every event '
+        '(checkpoints saved - observed by loading the file -, _last_save, interval, flag, exception) diffed with the '
+        'Lean model and checked by a model-free oracle. Non-trivial: a truncation '
         'error > 1e-14 had accumulated before the checkpoint (time evolution) / any DMRG checkpoint.')
 TRUSTED = ['Lean 4.33 kernel; axioms of every C18_* theorem ⊆ {propext, Classical.choice, Quot.sound}',
            'hand-written models TenpyModel/C18/{FS,Loop}.lean, tied to tenpy/simulations/simulation.py, '
@@ -100,6 +117,8 @@ def _run_corpus(ctx, res, pool, use_model=True):
             c18_crash.replay_case(ctx, res, case, use_model=use_model)
         elif case.get('part') == 'resume':
             resume_jobs.append(_resume_job(case))
+        elif case.get('part') == 'ext':
+            c18_ext.replay_case(ctx, res, case, use_model=use_model)
         elif case.get('part') == 'options':
             for r in pool.map(c18_options.run_scenario, [(case['scenario'], case['seed'])]):
                 res.note_case(case, nontrivial=True)
@@ -132,6 +151,7 @@ def run(ctx):
         c18_crash.run(ctx, res, use_model=True, pool=pool)
         c18_resume.run(ctx, res, pool, use_model=True)
         c18_options.run(ctx, res, pool)
+        c18_ext.run(ctx, res, pool, use_model=True)
         res.extra['anchor_coverage_note'] = ANCHOR_COVERAGE_NOTE
     finally:
         pool.close()
@@ -150,6 +170,7 @@ def search(ctx, reasons):
             c18_crash.run(sub, res, use_model=False, pool=pool)
             c18_resume.run(sub, res, pool, use_model=False)
             c18_options.run(sub, res, pool)
+            c18_ext.run(sub, res, pool, use_model=False)
             if any(f.kind == 'property' for f in res.failures) and i >= 1:
                 break
     finally:
@@ -164,6 +185,8 @@ def replay(ctx, payload):
     case = payload.get('case', {})
     if case.get('part') in ('crash', 'second-crash'):
         c18_crash.replay_case(ctx, res, case)
+    elif case.get('part') == 'ext':
+        c18_ext.replay_case(ctx, res, case)
     elif case.get('part') == 'options':
         pool = _pool()
         try:
